@@ -163,7 +163,27 @@ pub fn strip_colors(input: &str) -> Result<String> {
 }
 
 pub fn strip_colors_bytes(input: &[u8]) -> Result<Vec<u8>> {
-    strip_ansi_escapes::strip(input).context("strip ansi escape sequences from rendered output")
+    let mut stripper = AnsiStripper(Vec::with_capacity(input.len()));
+    let mut parser = vte::Parser::new();
+    for byte in input {
+        parser.advance(&mut stripper, *byte);
+    }
+    Ok(stripper.0)
+}
+
+/// Collects everything that is not part of an ANSI escape sequence: printable
+/// characters and control characters (tabs, carriage returns, ..), which are
+/// no escape sequences and must not get lost.
+struct AnsiStripper(Vec<u8>);
+
+impl vte::Perform for AnsiStripper {
+    fn print(&mut self, c: char) {
+        self.0.extend_from_slice(c.encode_utf8(&mut [0; 4]).as_bytes());
+    }
+
+    fn execute(&mut self, byte: u8) {
+        self.0.push(byte);
+    }
 }
 
 #[cfg(test)]
